@@ -41,6 +41,11 @@ func structCellOnlyFields(a *ssa.Alloc) bool {
 					if y.Op != token.MUL {
 						return false
 					}
+				case *ssa.FieldAddr:
+					// a field of a struct-typed field: read-only uses leave the cell alone
+					if !readOnlyAddr(y, 0) {
+						return false
+					}
 				case *ssa.DebugRef:
 				default:
 					return false
@@ -62,6 +67,30 @@ func structCellOnlyFields(a *ssa.Alloc) bool {
 	return true
 }
 
+// readOnlyAddr: the address is only loaded from (directly or through further
+// field selections).
+func readOnlyAddr(a ssa.Value, d int) bool {
+	if d > 4 || a.Referrers() == nil {
+		return d <= 4
+	}
+	for _, ref := range *a.Referrers() {
+		switch y := ref.(type) {
+		case *ssa.UnOp:
+			if y.Op != token.MUL {
+				return false
+			}
+		case *ssa.FieldAddr:
+			if !readOnlyAddr(y, d+1) {
+				return false
+			}
+		case *ssa.DebugRef:
+		default:
+			return false
+		}
+	}
+	return true
+}
+
 func resolveStructFields(fn *ssa.Function) bool {
 	changed := false
 	type key struct {
@@ -76,6 +105,81 @@ func resolveStructFields(fn *ssa.Function) bool {
 			return instrPos(a) < instrPos(b)
 		}
 		return Dominates(a.Block(), b.Block())
+	}
+	// promote: a field that is assigned several times (the request a handler's
+	// phases share, re-assigned as it gains context values, possibly in a loop)
+	// is a local variable in all but name: its loads get the reaching value,
+	// with phis where assignments merge (on-demand SSA construction).
+	type cellKey struct {
+		a *ssa.Alloc
+		i int
+	}
+	entryMemo := map[cellKey]map[*ssa.BasicBlock]ssa.Value{}
+	promote := func(a *ssa.Alloc, i int, ft types.Type, at ssa.Instruction, stores []*ssa.Store) ssa.Value {
+		ck := cellKey{a, i}
+		memo := entryMemo[ck]
+		if memo == nil {
+			memo = map[*ssa.BasicBlock]ssa.Value{}
+			entryMemo[ck] = memo
+		}
+		lastIn := func(b *ssa.BasicBlock, before int) ssa.Value {
+			var best *ssa.Store
+			bestPos := -1
+			for _, s := range stores {
+				if s.Block() != b {
+					continue
+				}
+				p := instrPos(s)
+				if (before < 0 || p < before) && p > bestPos {
+					best, bestPos = s, p
+				}
+			}
+			// the allocation itself defines the zero value (a fresh cell per execution)
+			if a.Block() == b {
+				if p := instrPos(a); (before < 0 || p < before) && p > bestPos {
+					return zeroOf(ft)
+				}
+			}
+			if best == nil {
+				return nil
+			}
+			return best.Val
+		}
+		var atEntry, atExit func(b *ssa.BasicBlock) ssa.Value
+		atEntry = func(b *ssa.BasicBlock) ssa.Value {
+			if v, ok := memo[b]; ok {
+				return v
+			}
+			switch len(b.Preds) {
+			case 0:
+				memo[b] = zeroOf(ft)
+			case 1:
+				memo[b] = nil
+				memo[b] = atExit(b.Preds[0])
+			default:
+				nm := a.Comment
+				if i >= 0 {
+					nm = fieldNameOf(a.Type().Underlying().(*types.Pointer).Elem(), i)
+				}
+				phi := newPhi(b, ft, a.Pos(), nm, nil)
+				memo[b] = phi
+				for _, p := range b.Preds {
+					phi.Edges = append(phi.Edges, atExit(p))
+				}
+				newPhis = append(newPhis, phi)
+			}
+			return memo[b]
+		}
+		atExit = func(b *ssa.BasicBlock) ssa.Value {
+			if v := lastIn(b, -1); v != nil {
+				return v
+			}
+			return atEntry(b)
+		}
+		if v := lastIn(at.Block(), instrPos(at)); v != nil {
+			return v
+		}
+		return atEntry(at.Block())
 	}
 	// cellField: the value of field i of the local struct a when instruction at reads it
 	var cellField func(a *ssa.Alloc, i int, ft types.Type, at ssa.Instruction, d int) ssa.Value
@@ -102,16 +206,40 @@ func resolveStructFields(fn *ssa.Function) bool {
 		switch {
 		case len(wholeStores) == 0 && len(fieldStores) == 0:
 			return zeroOf(ft)
-		case len(wholeStores) == 0 && len(fieldStores) == 1:
-			if !precedes(fieldStores[0], at) {
-				return nil
-			}
+		case len(wholeStores) == 0 && len(fieldStores) == 1 && precedes(fieldStores[0], at):
 			return fieldStores[0].Val
 		case len(wholeStores) == 1 && len(fieldStores) == 0:
 			if !precedes(wholeStores[0], at) {
 				return nil
 			}
 			return resolve(wholeStores[0].Val, i, ft, d+1)
+		case len(wholeStores) == 0 && len(fieldStores) <= 12 && promote != nil:
+			if v := promote(a, i, ft, at, fieldStores); v != nil {
+				return v
+			}
+		case len(wholeStores) == 0 && len(fieldStores) <= 8:
+			// a field that is assigned several times (the request a handler's phases
+			// share, re-assigned as it gains context values): the store that
+			// dominates the read and that no other store can follow on the way there
+			for _, s := range fieldStores {
+				if !precedes(s, at) {
+					continue
+				}
+				unique := true
+				for _, o := range fieldStores {
+					if o == s {
+						continue
+					}
+					q := PathQuery{From: o, Cut: func(in ssa.Instruction) bool { return in == ssa.Instruction(s) }, Goal: func(in ssa.Instruction) bool { return in == at }}
+					if q.Find() != nil {
+						unique = false
+						break
+					}
+				}
+				if unique {
+					return s.Val
+				}
+			}
 		}
 		return nil
 	}
@@ -181,10 +309,98 @@ func resolveStructFields(fn *ssa.Function) bool {
 			}
 		}
 	}
+	// a plain local variable that lives in a cell because closures captured it,
+	// once those closures have been inlined and are gone: loads get the reaching
+	// value like the fields above
+	for _, b := range fn.Blocks {
+		for _, in := range b.Instrs {
+			ld, ok := in.(*ssa.UnOp)
+			if !ok || ld.Op != token.MUL {
+				continue
+			}
+			a, ok := ld.X.(*ssa.Alloc)
+			if !ok || !a.Heap || a.Referrers() == nil {
+				continue
+			}
+			if _, isStruct := a.Type().Underlying().(*types.Pointer).Elem().Underlying().(*types.Struct); isStruct {
+				continue
+			}
+			var stores []*ssa.Store
+			plain := true
+			for _, ref := range *a.Referrers() {
+				switch x := ref.(type) {
+				case *ssa.Store:
+					if x.Addr != ssa.Value(a) {
+						plain = false
+					}
+					stores = append(stores, x)
+				case *ssa.UnOp:
+					if x.Op != token.MUL {
+						plain = false
+					}
+				case *ssa.DebugRef:
+				default:
+					plain = false
+				}
+			}
+			if !plain || len(stores) == 0 || len(stores) > 12 {
+				continue
+			}
+			if v := promote(a, -1, ld.Type(), ld, stores); v != nil && v != ssa.Value(ld) {
+				replaceOperands(fn, ld, v)
+				changed = true
+			}
+		}
+	}
 	if !changed {
 		return false
 	}
+	// merges that merge nothing (every operand the same value, or the phi itself)
+	for again := true; again; {
+		again = false
+		for k, np := range newPhis {
+			if np == nil {
+				continue
+			}
+			var one ssa.Value
+			trivial := true
+			for _, e := range np.Edges {
+				if e == ssa.Value(np) || e == nil {
+					continue
+				}
+				if one != nil && one != e {
+					trivial = false
+					break
+				}
+				one = e
+			}
+			if !trivial || one == nil {
+				continue
+			}
+			replaceOperands(fn, np, one)
+			for _, other := range newPhis {
+				if other == nil || other == np {
+					continue
+				}
+				for ei, e := range other.Edges {
+					if e == ssa.Value(np) {
+						other.Edges[ei] = one
+					}
+				}
+			}
+			newPhis[k] = nil
+			again = true
+		}
+	}
 	for _, np := range newPhis {
+		if np == nil {
+			continue
+		}
+		for ei, e := range np.Edges {
+			if e == nil {
+				np.Edges[ei] = zeroOf(np.Type()) // an edge from a block the cell's value cannot come from
+			}
+		}
 		b := np.Block()
 		// after the existing phis
 		k := 0
